@@ -234,6 +234,23 @@ func TestCheck(t *testing.T) {
 		}
 	}
 	r.Set("corpus_entries", len(corp))
+	// (3b) large option areas (60 kB to 1 MB: many options of up to 4096 octets, as the library's encoder writes them),
+	//      whole and cut at a few points
+	nl2 := r.Pick(48, 2000)
+	for i := 0; i < nl2; i++ {
+		if !r.Mine(i) {
+			continue
+		}
+		rng := r.Rand("large", i)
+		p, e := gen4.Packet(rng, 2)
+		gen4.LargeTotal(rng, p, e)
+		w := p.ToBytes()
+		judge(r, "large", w)
+		for k := 0; k < 3; k++ {
+			judge(r, "large-cut", w[:240+rng.IntN(len(w)-240)])
+		}
+	}
+	r.Set("large_total_cases", nl2)
 	// (4) generated non-canonical packets and structure-aware mutants
 	ng := r.Pick(50000, 6000000)
 	var prev []byte
